@@ -942,6 +942,8 @@ def run(ctx):
     rule_no_expire(ctx)
     rule_retriable_table(ctx)
     rule_seq_wrap(ctx)
+    from .common import rule_client_send_errors_retriable
+    rule_client_send_errors_retriable(ctx, "retriable-table")
     from .common import rule_instance_state
     rule_instance_state(ctx, ("aiokafka.producer.",))
     rep.nd("the resulting broker log order / exactly-once count under arbitrary fault sequences (history property)")
